@@ -310,8 +310,8 @@ def simplify : Nat → Opts → Expr → R Expr
         let l ← simplify fuel o l
         let r ← simplify fuel o r
         if prop < 4 && oo != Op.div && oo != Op.mod then
-          if l.isTop then return l
-          if r.isTop then return r
+          if l.isTop then return (if l.size == size then l else mkTop size)
+          if r.isTop then return (if r.size == size then r else mkTop size)
           let minus := oo == Op.sub
           if l.isCst then
             if r.isCst then return ← callOp fuel oo l r
@@ -437,7 +437,7 @@ def eqn2 : Nat → Opts → Op → Expr → Expr → Nat → Bool → Nat → R 
         else
           match (if o == Op.and then maskBounds value else none) with
           | some (i1, i2) => do
-              let c := Expr.comp size false []
+              let c := Expr.comp size sf []
               let c ← setitem fuel c 0 size (cst 0 size false)
               let piece ← getitem fuel l i1 (i2 + 1)
               let c ← setitem fuel c i1 (i2 + 1) piece
@@ -448,24 +448,27 @@ def eqn2 : Nat → Opts → Op → Expr → Expr → Nat → Bool → Nat → R 
                 let a ← getitem fuel l i (i + 1)
                 let b ← getitem fuel r i (i + 1)
                 callOp fuel o a b)
-              return some (← composer fuel bits)
+              let c ← composer fuel bits
+              return some (if c.isCmp then c.setSf sf else c)
             else if (o == Op.lsl || o == Op.lsr) && rv ≥ l.size then return some (cst 0 size false)
             else if opts.bitslice && o == Op.lsl then do
               let bits ← (pyRange 0 ((size : Int) - (rv : Int))).mapM (fun i => getitem fuel l i (i + 1))
-              return some (← composer fuel (bit0s rv ++ bits))
+              let c ← composer fuel (bit0s rv ++ bits)
+              return some (if c.isCmp then c.setSf sf else c)
             else if opts.bitslice && o == Op.lsr then do
               let bits ← (pyRange rv size).mapM (fun i => getitem fuel l i (i + 1))
-              return some (← composer fuel (bits ++ bit0s rv))
+              let c ← composer fuel (bits ++ bit0s rv)
+              return some (if c.isCmp then c.setSf sf else c)
             else if o == Op.lsl then do
               let n := l.size
-              let c := Expr.comp n false []
+              let c := Expr.comp n sf []
               let c ← setitem fuel c 0 n (cst 0 n false)
               let piece ← getitem fuel l 0 ((n : Int) - (rv : Int))
               let c ← setitem fuel c rv n piece
               return some (← simplify fuel {} c)
             else if o == Op.lsr then do
               let n := l.size
-              let c := Expr.comp n false []
+              let c := Expr.comp n sf []
               let c ← setitem fuel c 0 n (cst 0 n false)
               let piece ← getitem fuel l rv n
               let c ← setitem fuel c 0 ((n : Int) - (rv : Int)) piece
@@ -510,7 +513,7 @@ def eqn2 : Nat → Opts → Op → Expr → Expr → Nat → Bool → Nat → R 
               let cc ← lparts.foldlM (fun (cc : Expr) (p : Part) => do
                 let rp ← getitem fuel r p.1 p.2.1
                 let v ← callOp fuel o p.2.2 rp
-                setitem fuel cc p.1 p.2.1 v) (Expr.comp lsize false [])
+                setitem fuel cc p.1 p.2.1 v) (Expr.comp lsize sf [])
               simplify fuel { bitslice := opts.bitslice } cc
             else eqn2tail fuel opts o l r size sf prop
         | .cst .. => callOp fuel o l r
@@ -624,7 +627,15 @@ def helperCmp : Nat → Op → Expr → Expr → R Expr
 def helperRot : Nat → Op → Expr → Expr → R Expr
   | 0, _, _, _ => .error .fuel
   | fuel + 1, o, x, n =>
-    if x.isCst then do
+    if x.isCst && n.isCst then do
+      -- both constants: the amount is reduced modulo the width with Python integers
+      let m : Nat := (match n with | .cst nv _ _ => nv % x.size | _ => 0)
+      let (o1, o2) := if o == Op.ror then (Op.lsr, Op.lsl) else (Op.lsl, Op.lsr)
+      let t1 ← api fuel o1 x (mkCst (m : Int) x.size)
+      let x := x.setSf false
+      let t2 ← api fuel o2 (if o == Op.ror then x else x) (mkCst ((x.size - m : Nat) : Int) x.size)
+      api fuel Op.or t1 t2
+    else if x.isCst then do
       let (o1, o2) := if o == Op.ror then (Op.lsr, Op.lsl) else (Op.lsl, Op.lsr)
       let t1 ← api fuel o1 x n
       -- `x >> …` clears `x.sf` in place; for `rol` the node `x << n` built just before still holds the
